@@ -32,14 +32,18 @@ var timerDelays = []int{1, 3, 10, 40, 5000}
 func genTOp(t *rapid.T, label string, depth int) TOp {
 	kinds := []string{"make", "make", "make", "cancel", "wait"}
 	if depth == 0 {
-		kinds = append(kinds, "cancelAtDue")
+		kinds = append(kinds, "cancelAtDue", "contend")
 	} else {
 		kinds = []string{"make", "make", "cancel"}
 	}
 	op := TOp{Kind: rapid.SampledFrom(kinds).Draw(t, label+".k"), Id: rapid.SampledFrom(timerIds).Draw(t, label+".id")}
 	switch op.Kind {
-	case "make", "cancelAtDue":
+	case "make", "cancelAtDue", "contend":
 		op.DelayMs = rapid.SampledFrom(timerDelays).Draw(t, label+".d")
+		if op.Kind == "contend" {
+			op.DelayMs = rapid.SampledFrom([]int{1, 2, 3}).Draw(t, label+".cd")
+			op.WaitMs = rapid.SampledFrom([]int{3, 5000}).Draw(t, label+".cnew")
+		}
 		if op.Kind == "cancelAtDue" {
 			op.DelayMs = rapid.SampledFrom([]int{1, 3, 10}).Draw(t, label+".dd")
 		}
@@ -313,6 +317,33 @@ func checkTimers(c TimerCase) (v ev.Verdict) {
 			h.cancel(op.Id, nil)
 		case "wait":
 			time.Sleep(time.Duration(op.WaitMs) * time.Millisecond)
+		case "contend":
+			// The timer becomes due while the timers' (exported) lock is
+			// held by someone else; meanwhile a requester cancels it and
+			// makes a new timer under the same id.  When the lock is
+			// released the firing and the requester compete for it.
+			h.make(TOp{Kind: "make", Id: op.Id, DelayMs: op.DelayMs}, nil)
+			h.mu.Lock()
+			inc := h.live[op.Id]
+			h.mu.Unlock()
+			if inc != nil && inc.delay == op.DelayMs && !inc.cancelled {
+				h.ts.Lock()
+				for time.Now().Before(inc.due.Add(2 * time.Millisecond)) {
+					time.Sleep(200 * time.Microsecond)
+				}
+				done := make(chan struct{})
+				go func() {
+					defer close(done)
+					h.cancel(op.Id, nil)
+					h.make(TOp{Kind: "make", Id: op.Id, DelayMs: op.WaitMs}, nil)
+				}()
+				time.Sleep(time.Millisecond)
+				h.ts.Unlock()
+				<-done
+				h.mu.Lock()
+				h.nearDue++
+				h.mu.Unlock()
+			}
 		case "cancelAtDue":
 			// aim a cancel at the instant the timer becomes due
 			h.make(TOp{Kind: "make", Id: op.Id, DelayMs: op.DelayMs}, nil)
